@@ -60,6 +60,9 @@ func replay(c *core.Ctx, raw json.RawMessage) error {
 		genericBypass(c, true)
 		return nil
 	}
+	// every other clause is decided by the whole run; the generic-helper probe (K27) is
+	// judged only through its own witness
+	c.Strict = false
 	run(c)
 	return nil
 }
